@@ -745,14 +745,19 @@ class AST2SCFGTransformer:
         iter_setup = ast.unparse(node.iter)
         iter_assign = f"__scfg_iterator_{head_index}__"
         last_target_value = f"__scfg_iter_last_{head_index}__"
+        # A target that is not a plain name (e.g. 'for i, j in pairs') can
+        # neither be initialised with None nor take the sentinel: the next
+        # item is fetched into a versioned variable instead and unpacked into
+        # the target at the top of the loop body.
+        simple_target = isinstance(node.target, ast.Name)
+        next_value = (
+            target if simple_target else f"__scfg_iter_next_{head_index}__"
+        )
 
         # Emit iterator setup to pre-header.
-        preheader_code = textwrap.dedent(
-            f"""
-            {iter_assign} = iter({iter_setup})
-            {target} = None
-        """
-        )
+        preheader_code = f"{iter_assign} = iter({iter_setup})\n"
+        if simple_target:
+            preheader_code += f"{target} = None\n"
         self.codegen(ast.parse(preheader_code).body)
 
         # Point the current_block to header block.
@@ -765,12 +770,12 @@ class AST2SCFGTransformer:
         # should continue.  The '__scfg__sentinel__' is an singleton style
         # marker, so it need not be versioned.
 
-        header_code = textwrap.dedent(
-            f"""
-            {last_target_value} = {target}
-            {target} = next({iter_assign}, "__scfg_sentinel__")
-            {target} != "__scfg_sentinel__"
-        """
+        header_code = ""
+        if simple_target:
+            header_code += f"{last_target_value} = {target}\n"
+        header_code += (
+            f'{next_value} = next({iter_assign}, "__scfg_sentinel__")\n'
+            f'{next_value} != "__scfg_sentinel__"\n'
         )
         self.codegen(ast.parse(header_code).body)
         # Set the jump targets to be the body and the else block.
@@ -778,6 +783,8 @@ class AST2SCFGTransformer:
 
         # Create body block.
         self.add_block(body_index)
+        if not simple_target:
+            self.codegen(ast.parse(f"{target} = {next_value}").body)
 
         # Setup loop stack for recursion.
         self.loop_stack.append(LoopIndices(head_index, exit_index))
@@ -798,12 +805,9 @@ class AST2SCFGTransformer:
 
         # Emit orelse instructions. Needs to be prefixed with an assignment
         # such that the for loop target can escape the scope of the loop.
-        else_code = textwrap.dedent(
-            f"""
-            {target} = {last_target_value}
-        """
-        )
-        self.codegen(ast.parse(else_code).body)
+        if simple_target:
+            else_code = f"{target} = {last_target_value}"
+            self.codegen(ast.parse(else_code).body)
 
         # Recurs into the body of the else-branch.
         self.codegen(node.orelse)
